@@ -53,7 +53,7 @@ void _ZN18QCryptographicHash4hashERK10QByteArrayNS_9AlgorithmE(char *ret, char *
 uint32_t vp_hash_calls(void) { return vp_hn; }
 uint32_t vp_hash_alg(uint32_t k) { ASSERT(k < vp_hn, "hash log index"); return vp_hlog[k].alg; }
 uint32_t vp_hash_len(uint32_t k) { ASSERT(k < vp_hn, "hash log index"); return vp_hlog[k].in->f1; }
-uint32_t vp_hash_byte(uint32_t k, uint32_t i) { ASSERT(k < vp_hn && i < vp_hlog[k].in->f1, "hash log index"); return qb_bytes(vp_hlog[k].in)[i]; }
+uint32_t vp_hash_byte(uint32_t k, uint32_t i) { ASSERT(k < vp_hn, "hash log index"); if (i >= vp_hlog[k].in->f1 || i >= QB_CAP) return 0xffffu; /* past the end: no octet */ return ((struct qb*)vp_hlog[k].in)->data[i]; }
 uint8_t vp_hash_input_eq(uint32_t k, uint32_t l) { ASSERT(k < vp_hn && l < vp_hn, "hash log index"); return qb_eq(vp_hlog[k].in, vp_hlog[l].in); }
 uint8_t vp_hash_same_output(uint32_t k, uint32_t l) { ASSERT(k < vp_hn && l < vp_hn, "hash log index"); return vp_hlog[k].out == vp_hlog[l].out; }
 uint8_t vp_hash_output_is(uint32_t k, char *r) { ASSERT(k < vp_hn, "hash log index"); return *(QAD**)r == vp_hlog[k].out; }
@@ -65,7 +65,10 @@ uint8_t vp_hash_output_is(uint32_t k, char *r) { ASSERT(k < vp_hn, "hash log ind
 static int sl_cmp(QAD *a, QAD *b) { return vpl_qcmp16(a, b); }
 /* removeDuplicates: keeps the first occurrence of every string, in order (Qt contract); returns the number removed */
 uint32_t _ZN9QtPrivate28QStringList_removeDuplicatesEP11QStringList(char *self) { struct ld *l = LD(self); uint32_t n = l->end - l->begin; if (n == 0) return 0;
-  ASSERT(l->ref == 1 && l->begin == LD_B, "removeDuplicates: list must be detached (model)"); ASSERT(n <= LIST_CAP, "QList capacity of the model exceeded");
+  ASSERT(l->begin == LD_B, "removeDuplicates: begin"); ASSERT(n <= LIST_CAP, "QList capacity of the model exceeded");
+  if (l->ref != 1) { /* detach as Qt does: private copy of the slots, every string gains a reference */
+    struct ld *t = ld_new(n); for (uint32_t k = 0; k < LIST_CAP; k++) { if (k >= n) break; SL(t, k) = (char*)qad_ref((QAD*)SL(l, k)); }
+    if (l->ref != (uint32_t)-1 && l->ref != 0) l->ref--; LD(self) = t; l = t; }
   uint8_t keep[LIST_CAP]; uint32_t rank[LIST_CAP]; char *old[LIST_CAP]; uint32_t j = 0;
   for (uint32_t i = 0; i < LIST_CAP; i++) { keep[i] = 0; rank[i] = j; old[i] = SL(l, i); if (i >= n) continue; uint8_t dup = 0;
     for (uint32_t k = 0; k < LIST_CAP; k++) { if (k >= i) break; if (d_eq((QAD*)old[k], (QAD*)old[i])) dup = 1; }
@@ -122,6 +125,7 @@ void _ZNK8QVariant12toStringListEv(char *ret, char *self) { struct qv *a = (stru
   if (QV_TYPE(a) == QV_STRING) { struct ld *t = ld_new(1); t->array[LD_B] = (char*)qad_ref((QAD*)a->ptr); *(struct ld**)ret = t; return; }   /* Qt: QStringList(string), also for an empty string */
   *(struct ld**)ret = ld_new(0); }
 #endif
+uint32_t _ZNK8QVariant8userTypeEv(char *self) { struct qv *a = (struct qv*)self; qv_check(a); return QV_TYPE(a); }
 void _ZNK14QMessageLogger7warningEPKcz(char *self, char *fmt, ...) { }
 
 /* ---- QList<T>::iterator::operator-(iterator): the inline code subtracts two ptrtoint values, which symex cannot fold; the
